@@ -341,6 +341,9 @@ func main() {
 	case "c10":
 		runC10(*in, *seed, b)
 		return
+	case "c13":
+		runC13(*in, reserved, b)
+		return
 	}
 	f, err := os.Open(*in)
 	if err != nil {
